@@ -53,6 +53,29 @@ def run(rep):
     rep.run(knn)
     rep.run(extract_k)
     rep.run(no_id_order)
+    rep.run(explicit_h_edges)
+
+
+def explicit_h_edges(rep):
+    """the centre is read off `standard_order`: a bond that any writer of ITS-shaped graphs adds with an order PAIR whose two sides can differ has
+    to carry the difference as `standard_order` (the normaliser fills 0.0 where it is missing - such a bond would never reach the centre)"""
+    from ..facts import if_leaves
+    MISC_ = "synkit/Graph/Hyrogen/_misc.py"
+    fi = rep.f(MISC_, "h_to_explicit")
+    n = 0
+    for c in [c for c in walk_local(fi.node) if isinstance(c, ast.Call) and call_name(c) == "add_edge"]:
+        n += 1
+        ordv = kwarg(c, "order")
+        if ordv is None:
+            continue
+        pairs = [l for l in if_leaves(ordv) if isinstance(l, ast.Tuple) and len(l.elts) == 2 and norm(l.elts[0]) != norm(l.elts[1])]
+        if pairs and kwarg(c, "standard_order") is None and not any(k.arg is None for k in c.keywords):
+            rep.ob("O2.2", "R15", fi, False, c, f"a bond written with the order pair {norm(pairs[0])} carries standard_order = reactant order - product order "
+                   "(none is written: the bond's change is invisible to get_rc)", node=c)
+    rep.need("R15", n, 1, "add_edge calls in h_to_explicit")
+    if n:
+        rep.ob("O2.2", "R15", fi, True, f"{n} add_edge call(s)", "hydrogen bonds added to an ITS are either unchanged (scalar / equal pair) or carry their standard_order") if not any(
+            o["status"] != "HOLDS" and o["site"].startswith(MISC_) for o in rep.obligations[-n:]) else None
 
 
 def predicate(rep):
